@@ -191,3 +191,64 @@ func sortStrings(l []string) {
 		}
 	}
 }
+
+func init() {
+	// fileroundtrip <name> <attachments;...> <flags;...> <k=v;...> <preamble rule>*
+	//   -> ok <printed file> <has profile> <name> <attachments> <flags> <attrs> -- <preamble rule>*
+	// AppArmorProfileFile.String() of a file with that preamble and one profile header, then Parse of the text.
+	suites["fileroundtrip"] = func(f []string) string {
+		aa.VerifSetInHeader(false)
+		defer aa.VerifSetInHeader(false)
+		aa.IndentationLevel = 0
+		attrs := map[string]string{}
+		for _, kv := range sl(f[3]) {
+			k, v, _ := strings.Cut(kv, "=")
+			attrs[k] = v
+		}
+		pre := decodeRules(f[4:])
+		for _, r := range pre {
+			setBase(r, nil)
+		}
+		file := &aa.AppArmorProfileFile{Preamble: pre}
+		file.Profiles = []*aa.Profile{{Header: aa.Header{Name: unesc(f[0]), Attachments: sl(f[1]), Flags: sl(f[2]), Attributes: attrs}}}
+		text := file.String()
+		back := &aa.AppArmorProfileFile{}
+		if _, err := back.Parse(text); err != nil {
+			return "err\t" + esc(text)
+		}
+		name, att, flags, at := "", []string{}, []string{}, []string{}
+		has := "0"
+		if len(back.Profiles) > 0 {
+			h := back.Profiles[0].Header
+			has = "1"
+			name, att, flags = h.Name, h.Attachments, h.Flags
+			for k, v := range h.Attributes {
+				at = append(at, k+"="+v)
+			}
+			sortStrings(at)
+		}
+		return "ok\t" + esc(text) + "\t" + has + "\t" + esc(name) + "\t" + escListE(att) + "\t" + escListE(flags) + "\t" + escListE(at) + "\t--\t" + encodeRules(back.Preamble)
+	}
+	// parsehist <file text> <rules text> -> the reply of parserules on <rules text> after Parse(<file text>) ran in the same
+	// process without any reset in between (what a tool that reads tunables and then formats rules does)
+	suites["parsehist"] = func(f []string) string {
+		aa.VerifSetInHeader(false)
+		defer aa.VerifSetInHeader(false)
+		file := &aa.AppArmorProfileFile{}
+		_, _ = file.Parse(unesc(f[0]))
+		paras, _, err := aa.ParseRules(unesc(f[1]))
+		if err != nil {
+			return "err"
+		}
+		out := []string{"ok"}
+		for i, p := range paras {
+			if i > 0 {
+				out = append(out, "--")
+			}
+			for _, r := range p {
+				out = append(out, encodeRule(r))
+			}
+		}
+		return strings.Join(out, "\t")
+	}
+}
